@@ -72,7 +72,9 @@ def work(tier, seed):
 
 
 def pl_values(x, y, s):
-    vals = [y[i] for i in range(len(x)) if x[i] == s]
+    """Values the interpolant can take at s (sample points within 1e-9 of s count as hit)."""
+    tol = 1e-9 * max(1.0, abs(x[0]), abs(x[-1]))
+    vals = [y[i] for i in range(len(x)) if abs(x[i] - s) <= tol]
     for i in range(len(x) - 1):
         if x[i] < s < x[i + 1]:
             la = (s - x[i]) / (x[i + 1] - x[i])
@@ -90,7 +92,8 @@ def judge(ctx, case, x, y, t, sol, snippet=None):
         return
     if any(b_ <= a_ for a_, b_ in zip(sol, sol[1:])):
         ctx.fail("strictly-increasing", case, observed=sol, expected="strictly increasing", snippet=snippet)
-    if any(not (x[0] <= s <= x[-1]) for s in sol):
+    tol_x = 1e-9 * max(1.0, abs(x[0]), abs(x[-1]))
+    if any(not (x[0] - tol_x <= s <= x[-1] + tol_x) for s in sol):
         ctx.fail("inside-sampled-range", case, observed=sol, expected=[x[0], x[-1]], snippet=snippet)
         return
     lo, hi = min(y), max(y)
@@ -103,7 +106,7 @@ def judge(ctx, case, x, y, t, sol, snippet=None):
         for i in range(len(x) - 1):
             if (y[i] < t < y[i + 1]) or (y[i] > t > y[i + 1]):
                 # closed segment: a crossing within rounding of an end point is reported at that end point
-                if not any(x[i] <= s <= x[i + 1] for s in sol):
+                if not any(x[i] - tol_x <= s <= x[i + 1] + tol_x for s in sol):
                     ctx.fail("strict-crossing-reported", dict(case, segment=i), observed=sol,
                              expected=f"a solution inside [{x[i]}, {x[i + 1]}]", snippet=snippet)
     else:
@@ -111,7 +114,7 @@ def judge(ctx, case, x, y, t, sol, snippet=None):
             ctx.fail("single-closest-point-when-unreachable", case, observed=sol, expected="one point", snippet=snippet)
         s = sol[0]
         best = min(abs(v - t) for v in y)
-        vals = [y[i] for i in range(len(x)) if x[i] == s]
+        vals = [y[i] for i in range(len(x)) if abs(x[i] - s) <= tol_x]
         if not vals or abs(min(abs(v - t) for v in vals) - best) > tol:
             ctx.fail("closest-sample-point-when-unreachable", case, observed={"point": s, "values_there": vals},
                      expected={"min_distance": best}, snippet=snippet)
@@ -189,8 +192,7 @@ def run(item, ctx, tier, seed):
                         points, expect_err = int(pt), distinct < 2
                         if not expect_err:
                             lo, hi = float(vals[0]), float(vals[-1])
-                            xs = [lo + (hi - lo) * i / (pt - 1) for i in range(pt)]
-                            xs[-1] = hi
+                            xs = np.linspace(lo, hi, pt, endpoint=True).tolist()
                     targets = [-0.5, 0.0, 0.25, 1.0 / 3.0, 0.5, 0.75, 1.0, 1.5]
                     try:
                         res = s.threshold_at_metric(targets, metric, points)
